@@ -1,0 +1,31 @@
+//go:build verif
+
+package grace
+
+import "time"
+
+// ShiftForVerif moves every recorded expectation time d into the past (virtual time for
+// verification, build tag verif).
+func ShiftForVerif(d time.Duration) {
+	e := DefaultGraceExpectations
+	e.Lock()
+	defer e.Unlock()
+	for _, cache := range e.controllerCache {
+		for action, t := range cache {
+			shifted := t.Add(-d)
+			cache[action] = &shifted
+		}
+	}
+}
+
+// PendingForVerif returns the number of recorded expectations.
+func PendingForVerif() int {
+	e := DefaultGraceExpectations
+	e.RLock()
+	defer e.RUnlock()
+	n := 0
+	for _, cache := range e.controllerCache {
+		n += len(cache)
+	}
+	return n
+}
